@@ -298,7 +298,7 @@ func (s *Schema) doCompile() error {
 		return s.newDocumentError(errors.ErrRegexUnexpectedStart, 0, content[0])
 	}
 
-	var escaped bool
+	var escaped, closed bool
 
 loop:
 	for i, c := range content[1:] {
@@ -309,6 +309,7 @@ loop:
 		case '/':
 			if !escaped {
 				s.pattern = string(content[1 : i+1])
+				closed = true
 				break loop
 			}
 			escaped = false
@@ -318,7 +319,7 @@ loop:
 		}
 	}
 
-	if s.pattern == "" {
+	if !closed {
 		idx := uint(len(content) - 1)
 		return s.newDocumentError(errors.ErrRegexUnexpectedEnd, idx, content[idx])
 	}
